@@ -383,7 +383,5 @@ func c09(c *evid.Ctx) {
 		}
 		d.Close()
 	}
-	if c.Counter("non-empty node lists checked") == 0 {
-		c.Inconclusive("no non-empty node list observed")
-	}
+	c.Floor("non-empty node lists checked", 1)
 }
